@@ -373,7 +373,7 @@ package language
 //@   requires env != nil && env.store != nil
 // every action is evaluated: a result that is not an error is the shared UNDEFINED object and is produced only after the
 // loop over the actions ran to completion
-//@   ensures[C07] !typeis(result, "*Error") ==> exited(1) && typeis(result, "*Null") && result.(*Null) == UNDEFINED
+//@   ensures[C07] !typeis(result0, "*Error") ==> exited(1) && typeis(result0, "*Null") && result0.(*Null) == UNDEFINED
 //@   callsite[C07] evalAction: arg.env == env && 0 <= rangeindex + 1 && rangeindex + 1 < len(node.Expressions) && typeis(node.Expressions[rangeindex + 1], "*ActionExpression") && arg.node == node.Expressions[rangeindex + 1].(*ActionExpression)
 
 //@ func evalAction
@@ -420,6 +420,24 @@ package language
 //@                (forall j int :: {list.Value[j]} 0 <= j && j < old(len(list.Value)) && j != index ==> list.Value[j] == old(list.Value[j]))
 //@   ensures[C07] index >= old(len(list.Value)) ==> len(list.Value) == old(len(list.Value)) + 1 && list.Value[old(len(list.Value))] == value &&
 //@                (forall j int :: {list.Value[j]} 0 <= j && j < old(len(list.Value)) ==> list.Value[j] == old(list.Value[j]))
+
+// C16 / C09: the operands of a function call are evaluated in order; the first operand that fails ends the evaluation and
+// the error is handed back as the only element (that is how the callers recognise it - a reserved word or another error
+// in any operand position rejects the call); otherwise there is one value per operand and none of them is an error
+//@ func evalExpressions
+//@   partial
+//@   opaque Eval
+//@   ensures[C16,C09] !exited(1) ==> len(result0) == 1 && result0[0] != nil && typeis(result0[0], "*Error")
+//@   ensures[C16,C09] exited(1) ==> len(result0) == len(exps)
+//@   loop 1:
+//@     invariant -1 <= rangeindex && rangeindex < len(exps) && len(result) == rangeindex + 1
+//@ func evalUpdateExpressions
+//@   partial
+//@   opaque EvalUpdate
+//@   ensures[C16,C09] !exited(1) ==> len(result0) == 1 && result0[0] != nil && typeis(result0[0], "*Error")
+//@   ensures[C16,C09] exited(1) ==> len(result0) == len(exps)
+//@   loop 1:
+//@     invariant -1 <= rangeindex && rangeindex < len(exps) && len(result) == rangeindex + 1
 
 // ---- C09: the grammar of call arguments -------------------------------------------------------------------
 // nextToken shifts the look-ahead token into the current one
